@@ -19,94 +19,212 @@ def matcher_class(ctx):
     if init is None or match is None:
         raise AnalysisError('ResourceMatcher.__init__/match not found')
     sel, pkg = init.params[1], init.params[2]
+    init, match = ctx.N(init), ctx.N(match)
+    from sa.pathvals import PathValues
+    from sa.pattern import match_expr
+    from sa.model import norm_compare, truth_table
     paths = Enumerator(where=init.qualname).paths(init.node.body)
+
+    def sel_atom(t):
+        """Atom of a guard over the selector, after path-wise substitution (so `self.resources` and the parameter are one)."""
+        if match_expr('%s is None' % sel, t) is not None:
+            return 'none'
+        for ty in ('str', 'int', 'list'):
+            if match_expr('isinstance(%s, %s)' % (sel, ty), t) is not None:
+                return ty
+        if match_expr('isinstance(%s, dict)' % pkg, t) is not None:
+            return 'pkgdict'
+        return None
     kinds = {}
     for p in paths:
-        gs = [(u(t), pol) for t, pol in p.guards()]
-        key = None
-        for t, pol in p.guards():
-            txt = u(t)
-            if pol and 'is None' in txt:
-                key = 'none'
-            elif pol and 'isinstance' in txt and 'str' in txt:
-                key = 'str'
-            elif pol and 'isinstance' in txt and 'int' in txt and 'dict' not in txt:
-                key = key or 'int'
+        pv = PathValues(p)
+        key, pkgdict = None, None
+        for t, pol in pv.guards:
+            t, pol = norm_compare(t, pol)
+            a = sel_atom(t)
+            if a is None:
+                key = 'other:' + u(t)
+                break
+            if a == 'pkgdict':
+                pkgdict = pol
+            elif pol and key is None:
+                key = a
         if key is None:
             key = 'list'
-        kinds.setdefault(key, []).append(p)
+        kinds.setdefault(key, []).append((p, pv, pkgdict))
+    for k in sorted(kinds):
+        if k.startswith('other:'):
+            run.fail('RM', init.where, init.qualname, 'selector test: ' + k[6:],
+                     'ResourceMatcher distinguishes a selector form outside None / pattern string / index / list of names')
     for k in ('none', 'str', 'int', 'list'):
         run.check(k in kinds, 'RM', init.where, init.qualname, 'selector form: ' + k,
                   'ResourceMatcher has no branch for a %s selector' % k)
-    for p in kinds.get('str', []):
-        comp = [n for n in path_nodes(p) if isinstance(n, ast.Call) and ctx.res.external_name(n) == 're.compile']
+
+    def final(pv, name):
+        v = pv.value(name)
+        return v
+
+    def is_const(v, c):
+        return isinstance(v, ast.Constant) and v.value is c
+    for p, pv, _ in kinds.get('none', []):
+        v = final(pv, 'self.resources')
+        run.check(v is not None and (is_const(v, None) or u(v) == sel), 'RM', init.where, init.qualname,
+                  'None selector stays None', 'a None selector is replaced by %s' % (u(v) if v is not None else '?'))
+    for p, pv, _ in kinds.get('str', []):
+        v = final(pv, 'self.resources')
         ok = False
-        for c in comp:
-            parts = matchers._parts(ctx, c.args[0], init, None)
-            ok = matchers.anchored(parts) and any(pt[0] == 'var' and ('self.resources' in pt[1] or sel in pt[1]) for pt in parts)
-        flag = any(isinstance(n, ast.Assign) and pseudo(n.targets[0]) == 'self.re' and
-                   isinstance(n.value, ast.Constant) and n.value.value is True for n in path_nodes(p))
-        run.check(ok and flag, 'RM', init.where, init.qualname, 'str selector -> anchored pattern, re=True',
+        if isinstance(v, ast.Call) and u(v.func) == 're.compile' and init.module.imports.get('re') == ('external', 're'):
+            flags_ok = len(v.args) == 1 and not v.keywords
+            parts = matchers._parts(ctx, v.args[0], init, None) if v.args else []
+            ok = flags_ok and matchers.anchored(parts) and sum(1 for pt in parts if pt[0] == 'var') == 1 and \
+                any(pt[0] == 'var' and pt[1] == sel for pt in parts)
+        run.check(ok and is_const(final(pv, 'self.re'), True), 'RM', init.where, init.qualname,
+                  'str selector -> anchored pattern, re=True',
                   'a string selector is not compiled into a full-string pattern of itself')
-    for p in kinds.get('int', []):
+    for p, pv, pkgdict in kinds.get('int', []):
+        v = final(pv, 'self.resources')
         good = False
-        for n in path_nodes(p):
-            if isinstance(n, ast.Assign) and pseudo(n.targets[0]) == 'self.resources' and isinstance(n.value, ast.List) \
-                    and len(n.value.elts) == 1:
-                e = n.value.elts[0]
-                txt = u(e)
-                # <pkg>['resources'][<selector>]['name']  or  <pkg>.resources[<selector>].name
-                idx = [s for s in ast.walk(e) if isinstance(s, ast.Subscript) and pseudo(s.slice) in ('self.resources', sel)]
-                named = txt.endswith("['name']") or txt.endswith('.name')
-                good = bool(idx) and named and pkg in txt and 'resources' in txt
-        flag = any(isinstance(n, ast.Assign) and pseudo(n.targets[0]) == 'self.re' and
-                   isinstance(n.value, ast.Constant) and n.value.value is False for n in path_nodes(p))
-        gtxt = ' & '.join(('' if pol else 'not ') + u(t) for t, pol in p.guards())
-        run.check(good and flag, 'RM', init.where, init.qualname, 'int selector: ' + gtxt,
+        if isinstance(v, ast.List) and len(v.elts) == 1:
+            e = v.elts[0]
+            forms = []
+            if pkgdict is not False:
+                forms.append("%s['resources'][%s]['name']" % (pkg, sel))
+            if pkgdict is not True:
+                forms.append('%s.resources[%s].name' % (pkg, sel))
+            if pkgdict is None:
+                forms = []      # both package representations must be told apart
+            good = any(match_expr(f, e) is not None for f in forms)
+        gtxt = ' & '.join(('' if pol else 'not ') + u(t) for t, pol in pv.guards)
+        run.check(good and is_const(final(pv, 'self.re'), False), 'RM', init.where, init.qualname, 'int selector: ' + gtxt,
                   'an integer selector is not resolved to [name of package.resources[selector]]')
-    for p in kinds.get('list', []):
-        asserted = any(it.kind == 'assert' and 'list' in u(it.node.test) for it in p.items)
-        flag = any(isinstance(n, ast.Assign) and pseudo(n.targets[0]) == 'self.re' and
-                   isinstance(n.value, ast.Constant) and n.value.value is False for n in path_nodes(p))
-        run.check((asserted and flag) or p.term == RAISE, 'RM', init.where, init.qualname, 'list selector asserted, re=False',
+    for p, pv, _ in kinds.get('list', []):
+        asserted = any(sel_atom(t) == 'list' for t in pv.asserts) or \
+            any(sel_atom(norm_compare(t, pol)[0]) == 'list' and norm_compare(t, pol)[1] for t, pol in pv.guards)
+        v = final(pv, 'self.resources')
+        kept = v is not None and u(v) == sel
+        run.check((asserted and kept and is_const(final(pv, 'self.re'), False)) or p.term == RAISE, 'RM', init.where,
+                  init.qualname, 'list selector asserted, re=False',
                   'a selector that is neither None, str, int nor list is accepted silently')
-    # match()
+    # match(): evaluate the guards as formulas over the two atoms (selector is None, regex flag) and look at what each
+    # combination answers
     name = match.params[1]
     mp = Enumerator(where=match.qualname).paths(match.node.body)
-    seen = set()
+    pvs = {id(p): PathValues(p) for p in mp}
+
+    class _P:       # truth_table wants .guards() of substituted tests
+        def __init__(self, p):
+            self.p = p
+
+        def guards(self):
+            return pvs[id(self.p)].guards
+
+    def m_atom(t):
+        t, pol = norm_compare(t, True)
+        if match_expr('self.resources is None', t) is not None:
+            return 'NONE'
+        if pseudo(t) == 'self.re':
+            return 'RE'
+        return None
     for p in mp:
-        rets = [it.node for it in p.items if it.kind == 'return']
-        gtxt = ' & '.join(('' if pol else 'not ') + u(t) for t, pol in p.guards())
-        if not rets:
-            run.fail('RM', match.where, match.qualname, gtxt, 'match() can fall off without an answer')
-            continue
-        v = rets[0].value
-        guards = p.guards()
-        if any(pol and 'is None' in u(t) for t, pol in guards):
-            seen.add('none')
-            run.check(isinstance(v, ast.Constant) and v.value is True, 'RM', match.where, match.qualname, gtxt + ' -> ' + u(v),
-                      'a None selector must select every resource')
-        elif any(pol and pseudo(t) == 'self.re' for t, pol in guards):
-            seen.add('re')
-            calls = [c for c in ast.walk(v) if isinstance(c, ast.Call) and isinstance(c.func, ast.Attribute)
-                     and c.func.attr in ('match', 'fullmatch', 'search') and pseudo(c.func.value) == 'self.resources']
-            ok = len(calls) == 1 and calls[0].args and isinstance(calls[0].args[0], ast.Name) and calls[0].args[0].id == name
-            ok = ok and isinstance(v, ast.Compare) and isinstance(v.ops[0], ast.IsNot) and \
-                isinstance(v.comparators[0], ast.Constant) and v.comparators[0].value is None
-            run.check(ok, 'RM', match.where, match.qualname, gtxt + ' -> ' + u(v),
-                      'the regex branch does not test the name against the compiled selector')
-        else:
-            seen.add('list')
-            ok = isinstance(v, ast.Compare) and isinstance(v.ops[0], ast.In) and isinstance(v.left, ast.Name) and \
-                v.left.id == name and pseudo(v.comparators[0]) == 'self.resources'
-            run.check(ok, 'RM', match.where, match.qualname, gtxt + ' -> ' + u(v),
-                      'the list branch is not a membership test of the name')
-    run.check(seen == {'none', 're', 'list'}, 'RM', match.where, match.qualname, 'three answers: none / regex / list',
-              'match() lacks one of the three selector forms (found %s)' % sorted(seen))
-    # first test in match() is the None test (self.re is unset for None selectors)
-    first = mp[0].guards()[0] if mp and mp[0].guards() else None
-    run.check(first is not None and 'is None' in u(first[0]), 'RM', match.where, match.qualname, 'None tested first',
-              'match() consults self.re before the None test (attribute is unset for a None selector)')
+        for t, pol in pvs[id(p)].guards:
+            leaves = [t]
+            while leaves:
+                x = leaves.pop()
+                if isinstance(x, ast.BoolOp):
+                    leaves.extend(x.values)
+                elif isinstance(x, ast.UnaryOp) and isinstance(x.op, ast.Not):
+                    leaves.append(x.operand)
+                elif m_atom(x) is None:
+                    raise AnalysisError('%s: unrecognised test in match(): %s' % (match.where, u(x)))
+
+    def atom_of(t):
+        a = m_atom(t)
+        return a
+
+    def val_of(t, val):
+        """value of leaf t under valuation (leaf may be the negated spelling `is not None`)"""
+        return None
+    wrapped = [_P(p) for p in mp]
+    # norm_compare flips `is not None`; truth_table evaluates leaves by atom name, so rewrite leaves first
+    for w in wrapped:
+        pv = pvs[id(w.p)]
+        pv.guards = [(_canon_leaves(t), pol) for t, pol in pv.guards]
+    names, table = truth_table(wrapped, atom_of, lambda w: mp.index(w.p))
+
+    def answer_kind(v):
+        if is_const(v, True):
+            return 'all'
+        c = None
+        for pat in ('self.resources.%s(%s) is not None', 'bool(self.resources.%s(%s))', 'self.resources.%s(%s) != None'):
+            for meth in ('match', 'fullmatch', 'search'):
+                if match_expr(pat % (meth, name), v) is not None:
+                    c = 'regex'
+        if c:
+            return c
+        if match_expr('%s in self.resources' % name, v) is not None:
+            return 'member'
+        return 'other'
+    want = {(True, True): 'all', (True, False): 'all', (False, True): 'regex', (False, False): 'member'}
+    seen = set()
+    for none_v in (True, False):
+        for re_v in (True, False):
+            val = tuple(sorted({'NONE': none_v, 'RE': re_v}.items()))
+            sat = table.get(tuple(sorted((k, v) for k, v in dict(val).items() if k in names)), set())
+            label = 'selector %s, re flag %s' % ('is None' if none_v else 'is not None', re_v)
+            if not sat:
+                run.fail('RM', match.where, match.qualname, label, 'match() has no path for this case')
+                continue
+            for i in sat:
+                p = mp[i]
+                rets = pvs[id(p)].returns
+                if not rets:
+                    run.fail('RM', match.where, match.qualname, label, 'match() can fall off without an answer')
+                    continue
+                k = answer_kind(rets[0])
+                seen.add(k)
+                msg = {'all': 'a None selector must select every resource',
+                       'regex': 'the regex branch does not test the name against the compiled selector',
+                       'member': 'the list branch is not a membership test of the name'}[want[(none_v, re_v)]]
+                run.check(k == want[(none_v, re_v)], 'RM', match.where, match.qualname, label + ' -> ' + u(rets[0]), msg)
+    # self.re is unset for a None selector: on every path the flag is consulted only after the None test has failed
+    for p in mp:
+        established = False
+        ok = True
+        for t, pol in pvs[id(p)].guards:
+            ats = set()
+            stack = [t]
+            while stack:
+                x = stack.pop()
+                if isinstance(x, ast.BoolOp):
+                    stack.extend(x.values)
+                elif isinstance(x, ast.UnaryOp) and isinstance(x.op, ast.Not):
+                    stack.append(x.operand)
+                else:
+                    ats.add(m_atom(x))
+            if 'RE' in ats and not established:
+                # `self.resources is not None and self.re` short-circuits correctly; anything else does not
+                ok = isinstance(t, ast.BoolOp) and m_atom(t.values[0]) == 'NONE' and \
+                    ((isinstance(t.op, ast.And) and _negated(t.values[0])) or (isinstance(t.op, ast.Or) and not _negated(t.values[0])))
+            if 'NONE' in ats:
+                established = True
+        run.check(ok, 'RM', match.where, match.qualname, 'None tested first: ' + ' & '.join(u(t) for t, _ in pvs[id(p)].guards),
+                  'match() consults self.re before the None test (attribute is unset for a None selector)')
+
+
+def _negated(t):
+    """Is leaf t the negative spelling of the None test (`is not None`)?"""
+    return isinstance(t, ast.Compare) and isinstance(t.ops[0], ast.IsNot)
+
+
+def _canon_leaves(t):
+    """`x is not None` -> `not (x is None)` inside a guard formula, so that one atom names both spellings."""
+    if isinstance(t, ast.BoolOp):
+        return ast.BoolOp(op=t.op, values=[_canon_leaves(v) for v in t.values])
+    if isinstance(t, ast.UnaryOp) and isinstance(t.op, ast.Not):
+        return ast.UnaryOp(op=ast.Not(), operand=_canon_leaves(t.operand))
+    if isinstance(t, ast.Compare) and len(t.ops) == 1 and isinstance(t.ops[0], ast.IsNot):
+        return ast.UnaryOp(op=ast.Not(), operand=ast.Compare(left=t.left, ops=[ast.Is()], comparators=t.comparators))
+    return t
 
 
 def check(ctx):
